@@ -1349,6 +1349,10 @@ class SpaceManager(SharedSpaceOperations):
         cells = space.cells[name]
         if cells.is_derived():
             raise ValueError("cannot delete derived")
+        # Delete ItemSpaces built from the space or its sub spaces,
+        # including those of other spaces choosing them as base
+        for s in self._get_subs(space, skip_self=False):
+            s.clear_subs_rootitems()
         space.on_del_cells(name)
         self.update_subs(space, skip_self=False)
 
